@@ -81,3 +81,37 @@ def _v10(repo, mod):
     fn = repo.func(mod.name, "RandomTestSuiteSearchAlgorithm.generate_tests")
     w = find_stmt(fn, lambda s: isinstance(s, ast.While))
     return replace_node(mod, w.test, " and ".join(norm(v) for v in reversed(w.test.values)))
+
+
+RND = "pynguin.ga.algorithms.randomalgorithm"
+MOSA = "pynguin.ga.algorithms.mosaalgorithm"
+
+
+def _reset(repo, modname, qn):
+    fn = repo.func(modname, qn)
+    return fn, find_stmt(fn, lambda s: isinstance(s, ast.Expr) and norm(s.value) == "self.before_search_start()")
+
+
+@variant("C17", "population-before-reset", MOSA, "C17.reset-first", "the initial population is executed before the counters are reset")
+def _v20(repo, mod):
+    fn, r = _reset(repo, MOSA, "MOSAAlgorithm._initialize_generation")
+    pop = find_stmt(fn, lambda s: isinstance(s, ast.Assign) and norm(s.value) == "self._get_random_population()")
+    return delete_stmt(mod, r).replace(norm(pop) + "\n", norm(pop) + "\n        self.before_search_start()\n", 1)
+
+
+@variant("C17", "reset-under-condition", RND, "C17.reset-first", "the reset happens only on one branch")
+def _v21(repo, mod):
+    _fn, r = _reset(repo, RND, "RandomAlgorithm.generate_tests")
+    return replace_node(mod, r, "if self._test_suite_fitness_functions:\n            self.before_search_start()")
+
+
+@variant("C17", "reset-twice", RND, "C17.reset-first", "a second reset in the middle of the function forgets what was consumed")
+def _v22(repo, mod):
+    fn, _r = _reset(repo, RND, "RandomAlgorithm.generate_tests")
+    return insert_before(mod, fn.body[-1], "self.before_search_start()")
+
+
+@variant("C17", "twin-log-and-local-before-reset", RND, None, "logging and a constructor call before the reset stay silent")
+def _v23(repo, mod):
+    _fn, r = _reset(repo, RND, "RandomAlgorithm.generate_tests")
+    return insert_before(mod, r, 'self._logger.info("starting")\nspare = tsc.TestSuiteChromosome()')
